@@ -354,6 +354,74 @@ def generate(src, strip_comments, fn_body, header, repo):
     L.append("    process_connection under `if self.is_connection_blocked(id)` with the rest of the same batch and drained only into the")
     L.append("    same connection's next process_connection (each frame then meets the gate); anything else is \"unknown:..\" -/")
     L.append("def deferral : String := %s" % lean_str(deferral))
+    # ---------------------------------------------------------------- (f) connection ids and the substitute ids of indirect execution
+    # Commands run inside EXEC (process_command_parts) are handed a literal connection id instead of the issuer's.  Whatever a
+    # handler does to "the connection" then happens to the connection with THAT id, if one exists: the literal ids must lie
+    # below the first id the accept loop hands out.
+    m = re.search(r"static\s+CONN_ID_COUNTER\s*:\s*AtomicU64\s*=\s*AtomicU64::new\(\s*(\d+)\s*\)\s*;", text)
+    acc = fn_body(text, "accept_single_connection") or ""
+    if not m or not re.search(r"let\s+id\s*=\s*CONN_ID_COUNTER\.fetch_add\(\s*1\s*,", acc):
+        fail("connIdStart", "Nat", "CONN_ID_COUNTER initial value / `let id = CONN_ID_COUNTER.fetch_add(1, ..)` in accept_single_connection not found")
+        L[-1] = "def connIdStart : Nat := 0"
+    else:
+        L.append("/-- the first connection id the accept loop hands out (`static CONN_ID_COUNTER = AtomicU64::new(..)`, `fetch_add(1)`) -/")
+        L.append("def connIdStart : Nat := %s" % m.group(1))
+    subs = []
+    sigs = {}
+    for fm in re.finditer(r"\bfn\s+(\w+)\s*\(\s*&(?:mut\s+)?self\s*,([^)]*)\)", text):
+        params = [x.strip().split(":")[0].strip() for x in fm.group(2).split(",") if x.strip()]
+        if "conn_id" in params:
+            sigs[fm.group(1)] = params.index("conn_id")
+    for name, idx in sigs.items():
+        for cm in re.finditer(r"self\s*\.\s*%s\s*\(" % re.escape(name), text):
+            i, depth, args, cur = cm.end(), 1, [], ""
+            while i < len(text) and depth:
+                ch = text[i]
+                if ch in "([{":
+                    depth += 1
+                elif ch in ")]}":
+                    depth -= 1
+                    if depth == 0:
+                        break
+                if ch == "," and depth == 1:
+                    args.append(cur.strip())
+                    cur = ""
+                else:
+                    cur += ch
+                i += 1
+            args.append(cur.strip())
+            if idx < len(args) and re.fullmatch(r"\d+(?:u64)?", args[idx]):
+                subs.append((int(args[idx].replace("u64", "")), "%s called from %s" % (name, enclosing_fn(text, cm.start()))))
+    L.append("/-- literal connection ids passed where a handler expects the issuing connection's id (execution inside EXEC):")
+    L.append("    %s -/" % ("; ".join("%d: %s" % sw for sw in subs) or "none"))
+    L.append("def substituteConnIds : List Nat := [%s]" % ", ".join(str(i) for i, _ in subs))
+
+    # ---------------------------------------------------------------- (g) where the password comes from
+    cfg = strip_comments(src("config/mod.rs"))
+    body = re.sub(r"\s+", " ", fn_body(cfg, "apply_cli_args") or "")
+    if re.search(r"if let Some\(password\) = args\.password \{ self\.network\.password = Some\(password\); \}", body) and \
+            len(re.findall(r"\.password\s*=", body)) == 1:
+        cli_rule = "if-given"
+    elif re.search(r"self\.network\.password = args\.password;", body) and len(re.findall(r"\.password\s*=", body)) == 1:
+        cli_rule = "always"
+    else:
+        cli_rule = "unknown:" + ";".join(re.findall(r"[^;{}]*\.password\s*=[^;]*;", body))[:120]
+    L.append("/-- `Config::apply_cli_args`: \"if-given\" = `if let Some(password) = args.password { self.network.password = Some(password); }`")
+    L.append("    (a command-line password overrides the file's, its absence leaves the file's in place); \"always\" = the field is")
+    L.append("    assigned `args.password` unconditionally (no command-line password WIPES the file's) -/")
+    L.append("def cliPasswordRule : String := %s" % lean_str(cli_rule))
+    prs = strip_comments(src("config/parser.rs"))
+    file_ok = bool(re.search(r'"requirepass"\s*=>\s*\{\s*config\.network\.password\s*=\s*Some\(value\.to_string\(\)\);\s*\}', prs))
+    mainrs = re.sub(r"\s+", " ", strip_comments(src("main.rs")))
+    order_ok = bool(re.search(r"let mut config = if let Some\(ref config_path\) = cli_args\.config \{.*?Config::from_file\(config_path\).*?\} else \{ (?:config::)?Config::default\(\) \}; "
+                              r"config\.apply_cli_args\(cli_args\);", mainrs))
+    cli = re.sub(r"\s+", " ", strip_comments(src("config/cli.rs")))
+    flags_ok = bool(re.search(r'"--password" \| "--requirepass" => \{ if i \+ 1 < args\.len\(\) \{ cli_args\.password = Some\(args\[i \+ 1\]\.clone\(\)\);', cli))
+    srv_ok = "self.config.password" in text and bool(re.search(r"config\.network", fn_body(text, "from_config") or ""))
+    L.append("/-- the configuration file's `requirepass <value>` line sets the password (last line wins); main loads the file, then")
+    L.append("    applies the command line; `--password` / `--requirepass <value>` set the command-line password (last one wins) -/")
+    L.append("def passwordSourcesUnderstood : Bool := %s" % ("true" if file_ok and order_ok and flags_ok and srv_ok else "false"))
+
     L.append("/-- what this extraction could not read in the current source (each entry: table, reason); the tables concerned hold")
     L.append("    inert defaults and the driver predicts nothing while this list is non-empty -/")
     L.append("def unreadable : List String := %s" % lean_list(failed))
